@@ -442,6 +442,11 @@ func (e *Engine) runPath(wk *worker, fn *ssa.Function, prefix []int, wantSample 
 				res.Outcome = "panic"
 				res.Detail = x.msg
 				in.reportPanic(x)
+			case goroutineCrash:
+				// a panic that left a goroutine: no caller's recover can stop it
+				res.Outcome = "panic"
+				res.Detail = "in goroutine: " + x.gp.msg
+				in.reportPanic(x.gp)
 			case pathEnd:
 				res.Outcome = "cut"
 				res.Detail = x.why
